@@ -237,13 +237,13 @@ class Ctx:
         evs = set()
         nreset = 0
         for ln in lines:
-            m = re.search(r'"ev":"([A-Za-z]+)"', ln)
+            m = re.search(r'"ev": ?"([A-Za-z]+)"', ln)
             if m:
                 evs.add(m.group(1))
                 if m.group(1) == run_marker:
                     nreset += 1
         for ev in must_have:
-            if ev not in evs:
+            if ev not in evs and not (evs & {"Race", "Panic", "Died", "Hang"}):
                 raise Broken("%s: recorded trace has no %s event (hook or driver broken)" % (what, ev))
         ok, hw, total, out = self.validate_trace(module, trace, cfg, deque=deque, timeout=timeout, label=what, env_extra=env_extra)
         self.cov["traces_validated_against_impl"] += max(nreset, 1)
@@ -266,7 +266,7 @@ class Ctx:
                 break
         sl = lines[start:hw]
         bad = lines[hw - 1] if 0 < hw <= len(lines) else ""
-        m = re.search(r'"ev":"([A-Za-z]+)"', bad)
+        m = re.search(r'"ev": ?"([A-Za-z]+)"', bad)
         sig = {"check": what, "event": m.group(1) if m else "?",
                "detail": hashlib.sha1(bad.encode()).hexdigest()[:10]}
         self.violation(sig, {"trace_slice": sl, "rejected_line": bad, "module": module, "cfg": cfg},
